@@ -490,29 +490,37 @@ impl Server {
         // Critical fix: Only proceed if we actually got data
         // This prevents race conditions when multiple clients wake up simultaneously
         if let Some(popped_value) = value {
-            // Try to update connection state - use try_with_connection to avoid deadlock
-            if let Some(result) = self.connections.with_connection(wakeup.conn_id, |conn| -> Result<()> {
+            // Hand the element to the client if it is still there and still waiting
+            let delivered = self.connections.with_connection(wakeup.conn_id, |conn| {
                 // Only wake if still in blocked state
                 if let ConnectionState::Blocked(_) = conn.state {
                     // Send the response with the atomically popped value
                     let response = RespFrame::Array(Some(vec![
                         RespFrame::from_bytes(wakeup.key.clone()),
-                        RespFrame::from_bytes(popped_value),
+                        RespFrame::from_bytes(popped_value.clone()),
                     ]));
                     
-                    // Try to send response - if connection is closed, ignore error
+                    // Try to send response - if connection is closed, the element was not delivered
                     if let Err(_) = conn.send_frame(&response) {
-                        // Connection closed - this is okay, just return
-                        return Ok(());
+                        return false;
                     }
                     
                     // Return connection to authenticated state
                     conn.state = ConnectionState::Authenticated;
+                    true
+                } else {
+                    false
                 }
-                Ok(())
-            }) {
-                // Execute the result and ignore any connection errors
-                let _ = result;
+            }).unwrap_or(false);
+            
+            if !delivered {
+                // The client is gone or no longer waiting: the element goes back to the end of the
+                // list it was taken from, and the next client waiting on the key gets its turn
+                match wakeup.op_type {
+                    super::connection::BlockingOp::BRPop => self.storage.rpush(wakeup.db, wakeup.key.clone(), vec![popped_value])?,
+                    _ => self.storage.lpush(wakeup.db, wakeup.key.clone(), vec![popped_value])?,
+                };
+                self.notify_list_push(wakeup.db, &wakeup.key, 1);
             }
         }
         // If value is None (list was empty), the client should be timed out normally
